@@ -3,6 +3,7 @@
  * Strings handed to the library are exact-size heap copies, so that reading or writing past them is visible to the sanitizer build. */
 #include <plibsys.h>
 #include "vtrace.h"
+#include "galloc.h"
 static int unhex (const char *h, unsigned char *out, int max) {
 	int n = 0;
 	if (!strcmp (h, "-")) return 0;
@@ -17,6 +18,7 @@ int main (int argc, char **argv) {
 	in = fopen (argv[1], "r"); if (!in) return 2;
 	vt_open (argv[2]);
 	p_libsys_init (); p_libsys_shutdown (); p_libsys_init ();
+	if (!ga_install ()) return 2;      /* fresh memory is garbage, released memory is overwritten (galloc.h) */
 	while (fgets (line, sizeof line, in)) {
 		char *sv = NULL, *t; nw = 0;
 		for (t = strtok_r (line, " \n", &sv); t && nw < 40; t = strtok_r (NULL, " \n", &sv)) w[nw++] = t;
@@ -40,6 +42,7 @@ int main (int argc, char **argv) {
 		}
 		else vt_die ("bad op");
 	}
+	p_mem_restore_vtable ();
 	p_libsys_shutdown ();
 	vt_close ();
 	return 0;
